@@ -154,8 +154,9 @@ type c22Scn struct {
 	jev    []string
 	obs    []string
 	rchk   []string
-	nWin      int
-	noWindows bool
+	nWin           int
+	noWindows      bool
+	falseRecovered bool
 	sawTrim, sawErr, sawPages, sawStream, sawRecover bool
 }
 
@@ -582,6 +583,9 @@ func (s *c22Scn) doRequest() {
 				}
 			}
 			s.rchk = append(s.rchk, vApp("mkR", c22CoqPubs(res.Publications), vList(exp)))
+			if c22CoqPubs(res.Publications) != vList(exp) {
+				s.falseRecovered = true
+			}
 		}
 		s.coff, s.cep = res.Offset, res.Epoch
 		s.phase = "live"
@@ -874,10 +878,9 @@ func TestVerifC22(t *testing.T) {
 		if told {
 			class += "/ends-told"
 		}
+		// classification of a failure for the known-findings key (the oracle itself is evaluated in Coq)
 		finding := ""
 		if !told {
-			// classify a divergence for the known-findings key (the oracle itself is in Coq)
-			same := true
 			for k := 0; k < c22K; k++ {
 				bv, bok := bm[k]
 				cv, cok := s.cmap[k]
@@ -885,12 +888,12 @@ func TestVerifC22(t *testing.T) {
 					bok = false
 				}
 				if bok != cok || (bok && bv != cv) {
-					same = false
+					finding = "map-stream-loss-undetected/diverged"
 				}
 			}
-			if !same {
-				finding = "map-recovery-missed-changes"
-			}
+		}
+		if s.falseRecovered {
+			finding = "map-stream-loss-undetected/false-recovered"
 		}
 		if s.bad != "" {
 			t.Errorf("case %d (%s): driver problem: %s", i, class, s.bad)
